@@ -219,3 +219,84 @@ Definition is_spawn (a : label) : bool := match a with Spawn _ => true | _ => fa
 
 Definition all_jobs (s : state) : list job :=
   st_hi s ++ map fst (st_ready s) ++ map snd (st_running s) ++ st_finished s.
+
+(* ------------------------------------------------------------------------------------------------------------
+   The serial execution queue (lib/Basic/SerialQueue.cpp): ONE worker thread and one FIFO deque of operations;
+   addJob ignores the priority; executeProcess refuses to spawn once cancelled; the destructor appends a nil
+   operation (the sentinel) and joins the worker, which leaves its loop when it dequeues the sentinel
+   (SerialQueueImpl::run, "if (!fn) break;").  Whatever is behind the sentinel at that moment is destroyed unrun. *)
+Inductive sop := SJob (j : job) | SNil.
+
+Record sstate := mk_sstate {
+  ss_ops : list sop;                 (* operations, front first *)
+  ss_running : option job;
+  ss_finished : list job;            (* most recent first *)
+  ss_added : list job;
+  ss_cancelled : bool;
+  ss_shutdown : bool;
+  ss_exited : bool }.
+
+Inductive slabel :=
+| SAdd (j : job) (from_job : bool)   (* from_job: added by the job that is running *)
+| STake (j : job)
+| SFinish
+| SSpawn
+| SCancel
+| SShutdown
+| SExit.
+
+Definition sinit : sstate := mk_sstate [] None [] [] false false false.
+
+Definition sstep (s : sstate) (a : slabel) : option sstate :=
+  match a with
+  | SAdd j from_job =>
+    if mem_n j (ss_added s) then None
+    else if (if from_job then match ss_running s with Some _ => true | None => false end else negb (ss_shutdown s)) then
+      Some (mk_sstate (ss_ops s ++ [SJob j]) (ss_running s) (ss_finished s) (j :: ss_added s)
+                      (ss_cancelled s) (ss_shutdown s) (ss_exited s))
+    else None
+  | STake j =>
+    match ss_exited s, ss_running s, ss_ops s with
+    | false, None, SJob k :: r =>
+      if N.eqb k j then Some (mk_sstate r (Some j) (ss_finished s) (ss_added s) (ss_cancelled s) (ss_shutdown s) (ss_exited s))
+      else None
+    | _, _, _ => None
+    end
+  | SFinish =>
+    match ss_running s with
+    | Some j => Some (mk_sstate (ss_ops s) None (j :: ss_finished s) (ss_added s) (ss_cancelled s) (ss_shutdown s) (ss_exited s))
+    | None => None
+    end
+  | SSpawn =>
+    match ss_running s with
+    | Some _ => if ss_cancelled s then None else Some s
+    | None => None
+    end
+  | SCancel => Some (mk_sstate (ss_ops s) (ss_running s) (ss_finished s) (ss_added s) true (ss_shutdown s) (ss_exited s))
+  | SShutdown =>
+    if ss_shutdown s then None
+    else Some (mk_sstate (ss_ops s ++ [SNil]) (ss_running s) (ss_finished s) (ss_added s) (ss_cancelled s) true (ss_exited s))
+  | SExit =>
+    match ss_exited s, ss_running s, ss_ops s with
+    | false, None, SNil :: r =>
+      (* the worker breaks out of its loop; r is never looked at again *)
+      Some (mk_sstate r None (ss_finished s) (ss_added s) (ss_cancelled s) (ss_shutdown s) true)
+    | _, _, _ => None
+    end
+  end.
+
+Fixpoint saccepts (s : sstate) (ls : list slabel) : option sstate :=
+  match ls with
+  | [] => Some s
+  | a :: ls' => match sstep s a with Some s' => saccepts s' ls' | None => None end
+  end.
+
+Fixpoint sfirst_reject (s : sstate) (ls : list slabel) (i : N) : option N :=
+  match ls with
+  | [] => None
+  | a :: ls' => match sstep s a with Some s' => sfirst_reject s' ls' (i + 1) | None => Some i end
+  end.
+
+(* jobs that were added and will never run: still queued when the worker has left *)
+Definition slost (s : sstate) : list job :=
+  if ss_exited s then flat_map (fun o => match o with SJob j => [j] | SNil => [] end) (ss_ops s) else [].
